@@ -37,8 +37,17 @@ def idx_of_match(e):
 def closure_parent_consumer(facts, fn):
     """For a closure body: (parent Fn, consumer call term, arg position)."""
     parent_path = fn.b.get("parent")
-    parent = get_fn(facts, "nucleo", parent_path)
-    cr = [c for c in closure_creations(parent) if c[3] == fn.path]
+    pb = facts.body("nucleo", parent_path)
+    parent = fn_of(pb) if pb is not None else None
+    cr = [c for c in closure_creations(parent) if c[3] == fn.path] if parent is not None else []
+    if not cr:
+        # after helper inlining the creation site can live in any body that absorbed the parent
+        for b in facts.bodies_of("nucleo"):
+            pf = fn_of(b)
+            cr = [c for c in closure_creations(pf) if c[3] == fn.path]
+            if cr:
+                parent = pf
+                break
     if not cr:
         raise Inconclusive("creation of %s not found in %s" % (fn.path, parent_path))
     cons = closure_consumer(parent, cr[0][2])
